@@ -1,0 +1,11 @@
+//go:build verif
+
+// Contracts for the deductive verifier in /verif (govc). Only compiled with -tags verif.
+
+package features
+
+// C12 (assumption): reading a feature flag from the configuration (decoded into a local) writes no
+// program state
+//@ func Flag
+//@   trusted
+//@   assigns nothing
